@@ -58,4 +58,67 @@ def op_build(c):
     return first
 
 
-main({'templates': op_templates, 'support': op_support, 'build': op_build})
+def snap(o, depth=0, seen=None):
+    """deep structural snapshot of arbitrary objects (dataclasses, enums, containers, TextBlocks, NamespaceTrees)"""
+    import dataclasses
+    import enum
+    if o is None or isinstance(o, (bool, int, float, str)):
+        return o
+    if isinstance(o, enum.Enum):
+        return ['enum', type(o).__name__, o.name]
+    if isinstance(o, (list, tuple)):
+        return [snap(x, depth + 1) for x in o]
+    if isinstance(o, (set, frozenset)):
+        return ['set'] + sorted(json_key(snap(x, depth + 1)) for x in o)
+    if isinstance(o, dict):
+        return ['dict'] + sorted([json_key(snap(k)), snap(v, depth + 1)] for k, v in o.items())
+    if depth > 60:
+        return '<deep>'
+    if dataclasses.is_dataclass(o):
+        return [type(o).__name__] + [[f.name, snap(getattr(o, f.name), depth + 1)] for f in dataclasses.fields(o)]
+    if hasattr(o, '__dict__'):
+        return [type(o).__name__] + [[k, snap(v, depth + 1)] for k, v in sorted(vars(o).items())]
+    return repr(o)
+
+
+def json_key(x):
+    import json
+    return json.dumps(x, sort_keys=True, default=str)
+
+
+def op_history(c):
+    """models parsed once and shared; steps = [model index, cfg]; every build: snapshot inputs before/after"""
+    fcs = [buildlib.parse_file(f) for f in c['models']]
+    out = []
+    for mi, cfgj in c['steps']:
+        fc = fcs[mi]
+        try:
+            cfg = buildlib.mk_cfg(cfgj, fc)
+        except Exception as e:  # noqa
+            out.append({'res': exc(e), 'changed': None})
+            continue
+        before = json_key([snap(fc), snap(cfg)])
+        try:
+            res = [0, buildlib.files_obs(Builder().build(cfg))]
+        except RecursionError:
+            res = ['RecursionError']
+        except Exception as e:  # noqa
+            res = exc(e)
+        after = json_key([snap(fc), snap(cfg)])
+        changed = None
+        if before != after:
+            import difflib
+            a, b = before, after
+            i = next(k for k in range(min(len(a), len(b))) if a[k] != b[k]) if a[:min(len(a), len(b))] != b[:min(len(a), len(b))] else min(len(a), len(b))
+            changed = {'before': a[max(0, i - 150):i + 150], 'after': b[max(0, i - 150):i + 150]}
+        out.append({'res': res, 'changed': changed})
+    return out
+
+
+def op_standalone(c):
+    """support files generated stand-alone, for comparison with those inside a build result"""
+    return op_support(c)
+
+
+from dznpy.adv_shell import Builder  # noqa: E402
+main({'templates': op_templates, 'support': op_support, 'build': op_build, 'history': op_history, 'standalone': op_standalone})
